@@ -1,4 +1,5 @@
 from fontTools.pens.pointPen import AbstractPointPen
+from defcon.errors import DefconError
 
 class GlyphObjectPointPen(AbstractPointPen):
 
@@ -50,11 +51,9 @@ class GlyphObjectLoadingPointPen(GlyphObjectPointPen):
         if identifier is not None:
             if identifier in self._glyph.identifiers:
                 raise DefconError("The contour identifier (%s) is already used." % identifier)
-            # FIXME: we should do self._glyph.identifiers.add(identifier)
-            # otherwise the shallow contours could define the same identifier multiple times
-            # or even between shallow loading and real loading something else could
-            # take the identifier. The check above is pretty much worthless
-            # without storing the identifier.
+            # reserve the identifier until the contour is really loaded
+            # (Glyph._fullyLoadShallowLoadedContours hands it over)
+            self._glyph.identifiers.add(identifier)
             contour["identifier"] = identifier
         self._contours.append(contour)
 
@@ -73,10 +72,7 @@ class GlyphObjectLoadingPointPen(GlyphObjectPointPen):
         if identifier is not None:
             if identifier in self._glyph.identifiers:
                 raise DefconError("The contour identifier (%s) is already used." % identifier)
-            # FIXME: we should do self._glyph.identifiers.add(identifier)
-            # otherwise the shallow contours could define the same identifier multiple times
-            # or even between shallow loading and real loading something else could
-            # take the identifier. The check above is pretty much worthless
-            # without storing the identifier.
+            # reserve the identifier until the point is really loaded
+            self._glyph.identifiers.add(identifier)
             kwargs["identifier"] = identifier
         self._contours[-1]["points"].append((args, kwargs))
